@@ -148,11 +148,12 @@ def _worker(args):
         return dict(chunk=chunk, error=f"{type(e).__name__}: {e}", tb=traceback.format_exc()[-2000:])
 
 
-def run_pool(hname, chunks, budget_s, seed, tier, procs=NCPU, extra=None):
+def run_pool(hname, chunks, budget_s, seed, tier, procs=NCPU, extra=None, shuffle=True):
     deadline = time.time() + budget_s
     rnd = random.Random(seed)
     order = list(chunks)
-    rnd.shuffle(order)
+    if shuffle:
+        rnd.shuffle(order)
     tasks = [(hname, c, deadline, seed + i, tier, extra) for i, c in enumerate(order)]
     if procs <= 1 or len(tasks) <= 1:
         return [_worker(t) for t in tasks]
